@@ -28,7 +28,7 @@ OP_MAP = {
     "*": "__mul__",
     "+": "__add__",
     "-": "__sub__",
-    "/": "__div__",
+    "/": "__truediv__",
     "^": "__pow__",
     ">": "__gt__",
     "<": "__lt__",
